@@ -489,6 +489,21 @@ pub fn contexts() -> Vec<Context> {
         ("(?!(?:□(?=)){2})□'", cat(vec![nla(rep2(cat(vec![h0(), e()]))), h1()])),
         ("(?:(?=)□){2}+□'", cat(vec![rep(cat(vec![e(), h0()]), 2, Some(2), Mode::Possessive), h1()])),
         ("(?>(?:(?!x)□){2,})□'", cat(vec![atomic(rep(cat(vec![nla(x()), h0()]), 2, None, Mode::Greedy)), h1()])),
+        // a hard element followed by an easy tail of two pieces inside an atomic construct: the tail
+        // is one delegated piece that must be able to give characters back
+        ("(?>\\b□□')", atomic(cat(vec![Node::Assert(A::WordB), h0(), h1()]))),
+        ("(?=(?=)□□')□", cat(vec![la(cat(vec![e(), h0(), h1()])), h0()])),
+        // an atomic group with two ways to match the same text, in a loop whose continuation fails:
+        // exponential unless the group really is atomic
+        ("(?:(?>□(?=)|□'))*b", cat(vec![star(atomic(alt(vec![cat(vec![h0(), e()]), h1()]))), y()])),
+        // the same capturing piece twice (sub-expressions that compare equal but are different groups)
+        ("(□)*(□)*", cat(vec![star(grp(h0())), star(grp(h0()))])),
+        ("(□)□'|(□)a", alt(vec![cat(vec![grp(h0()), h1()]), cat(vec![grp(h0()), x()])])),
+        ("(?:(□)|(□))□'", cat(vec![alt(vec![grp(h0()), grp(h0())]), h1()])),
+        // an atomic construct that contains a closed atomic construct, a choice point and then a
+        // conditional that takes its (empty) no-branch, followed by something that fails
+        ("(?>(?>□)□'?(?(b)b|))□'", cat(vec![atomic(cat(vec![atomic(h0()), opt(h1()), cond(y(), y(), Node::Empty)])), h1()])),
+        ("(?>(?=(?=)□)□'?(?(b)b|))□'", cat(vec![atomic(cat(vec![la(cat(vec![e(), h0()])), opt(h1()), cond(y(), y(), Node::Empty)])), h1()])),
         // atomic / possessive
         ("(?>□)", atomic(h0())),
         ("(?>□)□'", cat(vec![atomic(h0()), h1()])),
@@ -590,6 +605,10 @@ pub fn contexts() -> Vec<Context> {
         ("(?<=\\G□)|□'", alt(vec![lb(cat(vec![Node::ContG, h0()])), h1()])),
         ("x|(?<=\\K□)□'", alt(vec![x(), cat(vec![lb(cat(vec![Node::KeepOut, h0()])), h1()])])),
         ("(?=□\\K)□'", cat(vec![la(cat(vec![h0(), Node::KeepOut])), h1()])),
+        // a leading literal, then a look-behind that reaches back to or past it with \G / \K inside
+        // (the search position is visible behind the match start)
+        ("□(?<=\\G□')", cat(vec![h0(), lb(cat(vec![Node::ContG, h1()]))])),
+        ("□(?<=\\Kx□)", cat(vec![h0(), lb(cat(vec![Node::KeepOut, x(), h0()]))])),
         ("\\G□", cat(vec![Node::ContG, h0()])),
         ("\\G□|□'", alt(vec![cat(vec![Node::ContG, h0()]), h1()])),
         ("□|\\G□'", alt(vec![h0(), cat(vec![Node::ContG, h1()])])),
